@@ -23,14 +23,17 @@ Definition scalar_tok (t : tok) : Prop := match t with KTag g => scalar_tag g | 
 
 Definition is_reprocess (r : presult) : bool := match r with Reprocess _ _ => true | _ => false end.
 
+(* a reprocessed token is the token itself (every arm of rules.rs passes its `token` on) *)
+Definition same_tok (t : tok) (r : presult) : Prop :=
+  match r with Reprocess _ t' | ReprocessForeign t' => t' = t | _ => True end.
 (* results a character token can produce (the asserts of process_to_completion rest on it) *)
-Definition res_ok (t : tok) (r : presult) : Prop :=
+Definition chars_ok (t : tok) (r : presult) : Prop :=
   is_chars t = true ->
   match r with
-  | Done | SplitWhitespace _ => True
-  | Reprocess _ t' => is_chars t' = true
+  | Done | SplitWhitespace _ | Reprocess _ _ => True
   | _ => False
   end.
+Definition res_ok (t : tok) (r : presult) : Prop := same_tok t r /\ chars_ok t r.
 
 (* the invariant after the step, read with the mode the loop is about to set *)
 Definition TInvR (r : presult) (s' : st) : Prop :=
@@ -86,8 +89,13 @@ Proof.
   rewrite Forall_forall in F. apply (F (k, b)). apply (In_combine_seq_nth bodies 0 k b Eb).
 Qed.
 
-Lemma res_ok_done t : res_ok t Done. Proof. intros _. exact Logic.I. Qed.
-Lemma res_ok_nonchars t r : is_chars t = false -> res_ok t r. Proof. intros E C. congruence. Qed.
+Lemma res_ok_done t : res_ok t Done. Proof. split; [exact Logic.I | intros _; exact Logic.I]. Qed.
+Lemma res_ok_nonchars t r : is_chars t = false -> same_tok t r -> res_ok t r.
+Proof. intros E S. split; [exact S | intro C; congruence]. Qed.
+Lemma res_ok_reprocess t m : res_ok t (Reprocess m t).
+Proof. split; [reflexivity | intros _; exact Logic.I]. Qed.
+Lemma res_ok_split t b : res_ok t (SplitWhitespace b).
+Proof. split; [exact Logic.I | intros _; exact Logic.I]. Qed.
 
 Lemma keeps_arm s mid k : TInv s -> keeps s (set_out (EvArm mid k :: out s) s).
 Proof. intro I. apply keeps_set_out. apply keeps_refl. exact I. Qed.
@@ -124,7 +132,7 @@ Proof.
   intros k b Ek Eb Hm Hn. pose proof (keeps_arm s (mode_id Initial) k I) as K.
   set (s1 := set_out _ s) in *. assert (E1 : mode s1 = Initial) by exact Em.
   arm_cases k Eb.
-  - apply wp_b_split. split; [exact (keeps_TInv _ _ K) | intros _; exact Logic.I].
+  - apply wp_b_split. split; [exact (keeps_TInv _ _ K) | apply res_ok_split].
   - unfold b_done. rewrite wp_ret. eapply step_post_keeps; [exact K | reflexivity].
   - unfold b_comment_to_doc. eapply wp_append_comment_to_doc; [exact K|]. intros s' K' _. eapply step_post_keeps; [exact K' | reflexivity].
   - rewrite wp_bind, wp_get, wp_bind.
@@ -132,7 +140,7 @@ Proof.
     { intros s2 K2. rewrite wp_ret. split.
       - split; [|discriminate]. apply TInv_set_mode_early; [exact (keeps_TInv _ _ K2) | | reflexivity].
         destruct K2 as [_ S2]. rewrite (st_mode _ _ S2), Em. reflexivity.
-      - intro C. exact C. }
+      - apply res_ok_reprocess. }
     destruct (negb (o_iframe_srcdoc (opts s1))).
     + rewrite wp_bind, wp_parse_error. unfold do_set_quirks. rewrite wp_bind, wp_modify, wp_emit.
       apply Fin. apply keeps_set_out. apply keeps_set_quirks_mode. apply keeps_set_out. exact K.
@@ -173,7 +181,7 @@ Proof.
 Qed.
 
 Lemma arm_split s t : TInv s -> wp (b_split t) (step_post t) s.
-Proof. intro I. apply wp_b_split. split; [exact I | intros _; exact Logic.I]. Qed.
+Proof. intro I. apply wp_b_split. split; [exact I | apply res_ok_split]. Qed.
 Lemma arm_done s t : TInv s -> wp (b_done t) (step_post t) s.
 Proof. intro I. eapply wp_mono; [apply armd_done; exact I | intros; apply is_done_post; assumption]. Qed.
 Lemma arm_unexpected s t : TInv s -> wp (b_unexpected t) (step_post t) s.
@@ -249,7 +257,7 @@ Proof.
   assert (AE : wp (before_html_anything_else t) (step_post t) s1).
   { unfold before_html_anything_else. rewrite wp_bind.
     apply (wp_create_root s1 [] BeforeHead); [exact I1 | rewrite E1; reflexivity | reflexivity | reflexivity | reflexivity |].
-    intros s' I'. rewrite wp_ret. split; [split; [exact I' | discriminate] | intro C; exact C]. }
+    intros s' I'. rewrite wp_ret. split; [split; [exact I' | discriminate] | apply res_ok_reprocess]. }
   arm_cases k Eb.
   - apply arm_comment_to_doc; exact I1.
   - apply arm_split; exact I1.
